@@ -11,8 +11,8 @@
     (statements printed by Coq from the lemmas they are proved by - tools/mkprop.py; statements only) *)
 From Coq Require Import Permutation Sorted.
 From CC Require Import Base.Prelude Base.Alloc Base.Ledger Generated.Status Generated.Constants Generated.Guards.
-From CC Require Import Rbuf.RbufModel SPool.SPoolModel DPool.DPoolModel Array.ArrayModel Deque.DequeModel PQueue.PQueueModel Hash.HashModel Tst.TstModel Tree.TreeModel.
-From CC Require Import Array.ArrayMore Deque.DequeProofs5 Hash.HashProofsD Tree.TreeTheorems Tst.TstProofs3 Tst.TstProofs4.
+From CC Require Import Rbuf.RbufModel SPool.SPoolModel DPool.DPoolModel Array.ArrayModel Deque.DequeModel PQueue.PQueueModel Hash.HashModel Tst.TstModel Tree.TreeModel List_.ListModel SList.SListModel.
+From CC Require Import Array.ArrayMore Deque.DequeProofs5 Hash.HashProofsD List_.ListProofs7 SList.SListProofs6 Tree.TreeTheorems Tst.TstProofs3 Tst.TstProofs4.
 Local Open Scope N_scope.
 
 (** CC_Array / CC_Stack (the stack iterator is the array iterator) *)
@@ -52,7 +52,7 @@ Theorem C07_array_remove :
          exists v : N,
            getN (a_data a) (ArrayModel.it_index it - 1) = Some v /\
            it_remove a it =
-           (CC_OK, Some v, set_data a (removeN (a_data a) (ArrayModel.it_index it - 1)),
+           (CC_OK, Some v, ArrayModel.set_data a (removeN (a_data a) (ArrayModel.it_index it - 1)),
             {| ArrayModel.it_index := ArrayModel.it_index it - 1; it_removed := true |}) /\
            skipnN (ArrayModel.it_index it - 1) (removeN (a_data a) (ArrayModel.it_index it - 1)) =
            skipnN (ArrayModel.it_index it) (a_data a) /\
@@ -90,7 +90,8 @@ Theorem C07_array_replace_index :
          exists (old : N) (l' : list N),
            getN (a_data a) (ArrayModel.it_index it - 1) = Some old /\
            updN (a_data a) (ArrayModel.it_index it - 1) x = Some l' /\
-           it_replace a it x = (CC_OK, Some old, set_data a l') /\ it_idx it = ArrayModel.it_index it - 1.
+           it_replace a it x = (CC_OK, Some old, ArrayModel.set_data a l') /\
+           it_idx it = ArrayModel.it_index it - 1.
 Proof. exact CC.Array.ArrayMore.it_replace_spec. Qed.
 Print Assumptions C07_array_replace_index.
 
@@ -99,7 +100,7 @@ Theorem C07_array_zip_next :
   forall (a1 a2 : arr) (it : aiter),
          a_size a1 < W ->
          a_size a2 < W ->
-         zip_next a1 a2 it =
+         ArrayModel.zip_next a1 a2 it =
          match getN (a_data a1) (ArrayModel.it_index it) with
          | Some x =>
              match getN (a_data a2) (ArrayModel.it_index it) with
@@ -125,7 +126,8 @@ Theorem C07_deque_fresh_complete :
   forall d : deque,
          DequeProofs.dq_inv d ->
          iter_collect d dq_iter_init (S (N.to_nat (dq_size d))) =
-         Ok (DequeProofs.dq_abs d, CC_ITER_END, {| it_index := dq_size d; it_last_removed := false |}).
+         Ok
+           (DequeProofs.dq_abs d, CC_ITER_END, {| DequeModel.it_index := dq_size d; it_last_removed := false |}).
 Proof. exact CC.Deque.DequeProofs5.iter_fresh_complete. Qed.
 Print Assumptions C07_deque_fresh_complete.
 
@@ -160,7 +162,7 @@ Theorem C07_deque_add_partial :
          DequeProofs.dq_wf d ->
          DequeProofs.repr d l ->
          DequeProofs.owns d a ->
-         add_at_branch_ok d (it_index it) = true ->
+         add_at_branch_ok d (DequeModel.it_index it) = true ->
          exists (st : stat) (d' : deque) (it' : dq_iter) (a' : alloc_st),
            dq_iter_add d it x a = Ok (st, d', it', a') /\
            (let (p, it0) := spec_iter_add l it x in
@@ -174,7 +176,9 @@ Proof. exact CC.Deque.DequeProofs5.iter_add_refines. Qed.
 Print Assumptions C07_deque_add_partial.
 
 Theorem C07_deque_index :
-  forall it : dq_iter, 0 < it_index it -> it_index it < W -> dq_iter_index it = it_index it - 1.
+  forall it : dq_iter,
+         0 < DequeModel.it_index it ->
+         DequeModel.it_index it < W -> dq_iter_index it = DequeModel.it_index it - 1.
 Proof. exact CC.Deque.DequeProofs5.iter_index_spec. Qed.
 Print Assumptions C07_deque_index.
 
@@ -186,10 +190,12 @@ Theorem C07_deque_zip_next :
          DequeProofs.repr d2 l2 ->
          dq_zip_next d1 d2 it =
          Ok
-           match nthN l1 (it_index it) with
+           match nthN l1 (DequeModel.it_index it) with
            | Some x =>
-               match nthN l2 (it_index it) with
-               | Some y => (CC_OK, Some (x, y), {| it_index := it_index it + 1; it_last_removed := false |})
+               match nthN l2 (DequeModel.it_index it) with
+               | Some y =>
+                   (CC_OK, Some (x, y),
+                    {| DequeModel.it_index := DequeModel.it_index it + 1; it_last_removed := false |})
                | None => (CC_ITER_END, None, it)
                end
            | None => (CC_ITER_END, None, it)
@@ -203,7 +209,7 @@ Theorem C07_deque_zip_remove :
          DequeProofs.repr d1 l1 ->
          DequeProofs.dq_wf d2 ->
          DequeProofs.repr d2 l2 ->
-         let i := wsub (it_index it) 1 in
+         let i := wsub (DequeModel.it_index it) 1 in
          if it_last_removed it
          then dq_zip_remove d1 d2 it = Ok (CC_ERR_VALUE_NOT_FOUND, None, d1, d2, it)
          else
@@ -213,7 +219,7 @@ Theorem C07_deque_zip_remove :
               | Some y =>
                   exists d1' d2' : deque,
                     dq_zip_remove d1 d2 it =
-                    Ok (CC_OK, Some (x, y), d1', d2', {| it_index := i; it_last_removed := true |}) /\
+                    Ok (CC_OK, Some (x, y), d1', d2', {| DequeModel.it_index := i; it_last_removed := true |}) /\
                     DequeProofs.dq_wf d1' /\
                     DequeProofs.repr d1' (del l1 i) /\
                     DequeProofs2.frame d1 d1' /\
@@ -231,7 +237,7 @@ Theorem C07_deque_zip_replace :
          DequeProofs.repr d1 l1 ->
          DequeProofs.dq_wf d2 ->
          DequeProofs.repr d2 l2 ->
-         let i := wsub (it_index it) 1 in
+         let i := wsub (DequeModel.it_index it) 1 in
          match getN l1 i with
          | Some x =>
              match getN l2 i with
@@ -317,15 +323,15 @@ Print Assumptions C07_hashtable_traversal.
 
 (** CC_TSTTable: pre-order automaton, each key once *)
 Theorem C07_tst_next :
-  forall (t : tst) (it : iter) (R : list entry),
+  forall (t : tst) (it : TstModel.iter) (R : list entry),
          it_valid t it R ->
          match R with
          | [] =>
-             exists it' : iter,
+             exists it' : TstModel.iter,
                tst_iter_next t it = Ok (CC_ITER_END, None, it') /\
                it_valid t it' [] /\ TstModel.it_cur it' = None /\ TstModel.it_next it' = None
          | e :: R' =>
-             exists (it' : iter) (pe : list TstModel.dir),
+             exists (it' : TstModel.iter) (pe : list TstModel.dir),
                tst_iter_next t it = Ok (CC_OK, entry_out (Some e), it') /\
                it_valid t it' R' /\
                TstModel.it_cur it' = Some pe /\
@@ -335,7 +341,7 @@ Proof. exact CC.Tst.TstProofs3.iter_next_spec. Qed.
 Print Assumptions C07_tst_next.
 
 Theorem C07_tst_remove :
-  forall (base : list N) (s : table) (a : alloc_st) (m : list (key * N)) (it : iter) 
+  forall (base : list N) (s : table) (a : alloc_st) (m : list (key * N)) (it : TstModel.iter)
            (done : list entry) (e : entry) (R' : list entry) (pe : list TstModel.dir) 
            (id c : N) (l mm r : tst),
          TstProofs2.tst_inv base s a ->
@@ -343,7 +349,7 @@ Theorem C07_tst_remove :
          it_ok (t_root s) it (done ++ [e]) R' ->
          TstModel.it_cur it = Some pe ->
          node_at (t_root s) (rev pe) = Some (Node id c (Some e) l mm r) ->
-         exists (s' : table) (it2 : iter) (a' : alloc_st),
+         exists (s' : table) (it2 : TstModel.iter) (a' : alloc_st),
            tst_iter_remove s it a = Ok (CC_OK, Some (TstProofs1.eval e), s', it2, a') /\
            TstProofs2.tst_inv base s' a' /\
            TstProofs2.tst_rel (t_root s') (spec_del m (TstProofs1.ekey e)) /\
@@ -353,11 +359,11 @@ Theorem C07_tst_remove :
            TstProofs1.entries (t_root s') = done ++ R' /\
            match R' with
            | [] =>
-               exists it3 : iter,
+               exists it3 : TstModel.iter,
                  tst_iter_next (t_root s') it2 = Ok (CC_ITER_END, None, it3) /\
                  it_ok (t_root s') it3 done [] /\ TstModel.it_cur it3 = None
            | e2 :: R'' =>
-               exists (it3 : iter) (pe2 : list TstModel.dir),
+               exists (it3 : TstModel.iter) (pe2 : list TstModel.dir),
                  tst_iter_next (t_root s') it2 = Ok (CC_OK, entry_out (Some e2), it3) /\
                  it_ok (t_root s') it3 (done ++ [e2]) R'' /\
                  TstModel.it_cur it3 = Some pe2 /\
@@ -400,14 +406,251 @@ Theorem C07_treetable_remove :
          forall (s : ttable) (a : alloc_st) (k : N) (nx : option N),
          TreeProofsTable.tt_inv cmp s a ->
          N.of_nat (tsize (tt_tree s)) + 1 < W ->
-         tt_iter s = Some {| it_cur := CNode k; it_next := nx |} ->
+         tt_iter s = Some {| it_cur := CNode k; TreeModel.it_next := nx |} ->
          exists (v : N) (s' : ttable) (a' : alloc_st),
            assoc_eqb k (elems (tt_tree s)) = Some (k, v) /\
            tt_step cmp s a OIterRemove = Ok (mk_out CC_OK [v] 0, s', a') /\
            TreeProofsTable.tt_inv cmp s' a' /\
            elems (tt_tree s') = remove_eqb k (elems (tt_tree s)) /\
-           tt_iter s' = Some {| it_cur := CNull; it_next := nx |} /\
+           tt_iter s' = Some {| it_cur := CNull; TreeModel.it_next := nx |} /\
            tt_step cmp s' a' OIterRemove = Ok (mk_out CC_ERR_KEY_NOT_FOUND [] 0, s', a').
 Proof. exact CC.Tree.TreeTheorems.T_iter_remove. Qed.
 Print Assumptions C07_treetable_remove.
+
+(** CC_List forward iterator *)
+Theorem C07_list_next_yield :
+  forall (s : clist) (it : iter) (done : list (N * N)) (x d : N) (t : list (N * N)),
+         ListHeap.lrep s (done ++ (x, d) :: t) ->
+         it_pos it done ((x, d) :: t) ->
+         exists it' : iter,
+           iter_next s it = Ok (CC_OK, d, it') /\ it_pos it' (done ++ [(x, d)]) t /\ it_last it' = x.
+Proof. exact CC.List_.ListProofs7.iter_next_yield. Qed.
+Print Assumptions C07_list_next_yield.
+
+Theorem C07_list_next_end :
+  forall (s : clist) (it : iter) (done : list (N * N)),
+         it_pos it done [] -> iter_next s it = Ok (CC_ITER_END, 0, it).
+Proof. exact CC.List_.ListProofs7.iter_next_end. Qed.
+Print Assumptions C07_list_next_end.
+
+Theorem C07_list_fresh_complete :
+  forall (s : clist) (l : list (N * N)),
+         ListHeap.lrep s l -> iter_drain (S (length l)) s (iter_init s) = Ok (map snd l, CC_ITER_END).
+Proof. exact CC.List_.ListProofs7.iter_fresh_complete. Qed.
+Print Assumptions C07_list_fresh_complete.
+
+Theorem C07_list_index :
+  forall (it : iter) (done : list (N * N)) (x d : N) (rest : list (N * N)),
+         it_pos it (done ++ [(x, d)]) rest -> lenN (done ++ [(x, d)]) < W -> iter_index it = lenN done.
+Proof. exact CC.List_.ListProofs7.iter_index_spec. Qed.
+Print Assumptions C07_list_index.
+
+Theorem C07_list_replace :
+  forall (s : clist) (it : iter) (done : list (N * N)) (x d : N) (rest : list (N * N)) (v : N),
+         ListHeap.lrep s (done ++ (x, d) :: rest) ->
+         it_last it = x ->
+         exists s' : clist,
+           iter_replace s it v = Ok (CC_OK, d, s') /\
+           ListHeap.lrep s' (done ++ (x, v) :: rest) /\ ListProofs1.same_hdr s s'.
+Proof. exact CC.List_.ListProofs7.iter_replace_spec. Qed.
+Print Assumptions C07_list_replace.
+
+Theorem C07_list_remove :
+  forall (s : clist) (it : iter) (done : list (N * N)) (x d : N) (rest : list (N * N)) 
+           (a : alloc_st) (F : list block),
+         ListHeap.lrep s (done ++ (x, d) :: rest) ->
+         ListProofs1.lown a s (done ++ (x, d) :: rest) F ->
+         it_pos it (done ++ [(x, d)]) rest ->
+         it_last it = x ->
+         lenN (done ++ [(x, d)]) < W ->
+         exists (s' : clist) (it' : iter) (a' : alloc_st),
+           iter_remove s it a = Ok (CC_OK, d, s', it', a') /\
+           ListHeap.lrep s' (done ++ rest) /\
+           ListProofs1.lown a' s' (done ++ rest) F /\
+           it_pos it' done rest /\ it_last it' = 0 /\ ListProofs1.same_hdr s s' /\ ListHeap.aframe a a'.
+Proof. exact CC.List_.ListProofs7.iter_remove_spec. Qed.
+Print Assumptions C07_list_remove.
+
+(** add after a yield (any number of adds: the last added comes first), tail kept correct *)
+Theorem C07_list_add :
+  forall (s : clist) (it : iter) (done : list (N * N)) (x d : N) (added rest : list (N * N))
+           (a : alloc_st) (F : list block) (v : N),
+         ListHeap.lrep s (done ++ (x, d) :: added ++ rest) ->
+         ListProofs1.lown a s (done ++ (x, d) :: added ++ rest) F ->
+         it_pos it (done ++ (x, d) :: added) rest ->
+         it_last it = x ->
+         let (o, a1) := alloc (l_mem s) NODE_BYTES a in
+         match o with
+         | Some id =>
+             exists (s' : clist) (it' : iter),
+               iter_add s it v a = Ok (CC_OK, s', it', a1) /\
+               ListHeap.lrep s' (done ++ (x, d) :: (id, v) :: added ++ rest) /\
+               ListProofs1.lown a1 s' (done ++ (x, d) :: (id, v) :: added ++ rest) F /\
+               it_pos it' (done ++ (x, d) :: (id, v) :: added) rest /\
+               it_last it' = x /\ ListProofs1.same_hdr s s' /\ ListHeap.aframe a a1
+         | None =>
+             iter_add s it v a = Ok (CC_ERR_ALLOC, s, it, a1) /\
+             ListProofs1.lown a1 s (done ++ (x, d) :: added ++ rest) F /\
+             live a1 = live a /\ ListHeap.aframe a a1 /\ (plan a <> [] \/ limit a < NODE_BYTES)
+         end.
+Proof. exact CC.List_.ListProofs7.iter_add_spec. Qed.
+Print Assumptions C07_list_add.
+
+(** CC_List descending iterator: the exact reverse *)
+Theorem C07_list_diter_fresh_complete :
+  forall (s : clist) (l : list (N * N)),
+         ListHeap.lrep s l ->
+         lenN l < W -> diter_drain (S (length l)) s (diter_init s) = Ok (rev (map snd l), CC_ITER_END).
+Proof. exact CC.List_.ListProofs7.diter_fresh_complete. Qed.
+Print Assumptions C07_list_diter_fresh_complete.
+
+Theorem C07_list_diter_index :
+  forall (it : iter) (rest done : list (N * N)), dit_pos it rest done -> diter_index it = lenN rest.
+Proof. exact CC.List_.ListProofs7.diter_index_spec. Qed.
+Print Assumptions C07_list_diter_index.
+
+Theorem C07_list_diter_remove :
+  forall (s : clist) (it : iter) (rest : list (N * N)) (x d : N) (done : list (N * N)) 
+           (a : alloc_st) (F : list block),
+         ListHeap.lrep s (rest ++ (x, d) :: done) ->
+         ListProofs1.lown a s (rest ++ (x, d) :: done) F ->
+         dit_pos it rest ((x, d) :: done) ->
+         it_last it = x ->
+         exists (s' : clist) (it' : iter) (a' : alloc_st),
+           diter_remove s it a = Ok (CC_OK, d, s', it', a') /\
+           ListHeap.lrep s' (rest ++ done) /\
+           ListProofs1.lown a' s' (rest ++ done) F /\
+           dit_pos it' rest done /\ it_last it' = 0 /\ ListProofs1.same_hdr s s' /\ ListHeap.aframe a a'.
+Proof. exact CC.List_.ListProofs7.diter_remove_spec. Qed.
+Print Assumptions C07_list_diter_remove.
+
+Theorem C07_list_diter_add :
+  forall (s : clist) (it : iter) (rest : list (N * N)) (x d : N) (done : list (N * N)) 
+           (a : alloc_st) (F : list block) (v : N),
+         ListHeap.lrep s (rest ++ (x, d) :: done) ->
+         ListProofs1.lown a s (rest ++ (x, d) :: done) F ->
+         dit_pos it rest ((x, d) :: done) ->
+         it_last it = x ->
+         let (o, a1) := alloc (l_mem s) NODE_BYTES a in
+         match o with
+         | Some id =>
+             exists (s' : clist) (it' : iter),
+               diter_add s it v a = Ok (CC_OK, s', it', a1) /\
+               ListHeap.lrep s' (rest ++ (id, v) :: (x, d) :: done) /\
+               ListProofs1.lown a1 s' (rest ++ (id, v) :: (x, d) :: done) F /\
+               dit_pos it' rest ((id, v) :: (x, d) :: done) /\
+               it_last it' = id /\ ListProofs1.same_hdr s s' /\ ListHeap.aframe a a1
+         | None =>
+             diter_add s it v a = Ok (CC_ERR_ALLOC, s, it, a1) /\
+             ListProofs1.lown a1 s (rest ++ (x, d) :: done) F /\
+             live a1 = live a /\ ListHeap.aframe a a1 /\ (plan a <> [] \/ limit a < NODE_BYTES)
+         end.
+Proof. exact CC.List_.ListProofs7.diter_add_spec. Qed.
+Print Assumptions C07_list_diter_add.
+
+(** CC_List zip iterator: lockstep *)
+Theorem C07_list_zip_next_yield :
+  forall (s1 s2 : clist) (z : ziter) (done1 : list (N * N)) (x1 d1 : N) (t1 done2 : list (N * N))
+           (x2 d2 : N) (t2 : list (N * N)),
+         ListHeap.lrep s1 (done1 ++ (x1, d1) :: t1) ->
+         ListHeap.lrep s2 (done2 ++ (x2, d2) :: t2) ->
+         zip_pos z done1 ((x1, d1) :: t1) done2 ((x2, d2) :: t2) ->
+         exists z' : ziter,
+           zip_next s1 s2 z = Ok (CC_OK, d1, d2, z') /\
+           zip_pos z' (done1 ++ [(x1, d1)]) t1 (done2 ++ [(x2, d2)]) t2 /\ z1_last z' = x1 /\ z2_last z' = x2.
+Proof. exact CC.List_.ListProofs7.zip_next_yield. Qed.
+Print Assumptions C07_list_zip_next_yield.
+
+(** stops at the shorter list *)
+Theorem C07_list_zip_fresh_complete :
+  forall (s1 : clist) (l1 : list (N * N)) (s2 : clist) (l2 : list (N * N)),
+         ListHeap.lrep s1 l1 ->
+         ListHeap.lrep s2 l2 ->
+         zip_drain (S (Nat.min (length l1) (length l2))) s1 s2 (zip_init s1 s2) =
+         Ok (combine (map snd l1) (map snd l2), CC_ITER_END).
+Proof. exact CC.List_.ListProofs7.zip_fresh_complete. Qed.
+Print Assumptions C07_list_zip_fresh_complete.
+
+(** CC_SList forward iterator *)
+Theorem C07_slist_next_yield :
+  forall (s : slist) (it : siter) (done : list (N * N)) (x d : N) (t : list (N * N)),
+         SListHeap.srep s (done ++ (x, d) :: t) ->
+         sit_pos it done ((x, d) :: t) ->
+         exists it' : siter,
+           siter_next s it = Ok (CC_OK, d, it') /\
+           sit_pos it' (done ++ [(x, d)]) t /\ si_current it' = x /\ si_prev it' = ListHeap.last_id done 0.
+Proof. exact CC.SList.SListProofs6.siter_next_yield. Qed.
+Print Assumptions C07_slist_next_yield.
+
+Theorem C07_slist_fresh_complete :
+  forall (s : slist) (l : list (N * N)),
+         SListHeap.srep s l -> siter_drain (S (length l)) s (siter_init s) = Ok (map snd l, CC_ITER_END).
+Proof. exact CC.SList.SListProofs6.siter_fresh_complete. Qed.
+Print Assumptions C07_slist_fresh_complete.
+
+Theorem C07_slist_index :
+  forall (it : siter) (done : list (N * N)) (x d : N) (rest : list (N * N)),
+         sit_pos it (done ++ [(x, d)]) rest -> lenN (done ++ [(x, d)]) < W -> siter_index it = lenN done.
+Proof. exact CC.SList.SListProofs6.siter_index_spec. Qed.
+Print Assumptions C07_slist_index.
+
+Theorem C07_slist_replace :
+  forall (s : slist) (it : siter) (done : list (N * N)) (x d : N) (rest : list (N * N)) (v : N),
+         SListHeap.srep s (done ++ (x, d) :: rest) ->
+         si_current it = x ->
+         exists s' : slist,
+           siter_replace s it v = Ok (CC_OK, d, s') /\
+           SListHeap.srep s' (done ++ (x, v) :: rest) /\ SListProofs1.ssame_hdr s s'.
+Proof. exact CC.SList.SListProofs6.siter_replace_spec. Qed.
+Print Assumptions C07_slist_replace.
+
+Theorem C07_slist_remove :
+  forall (s : slist) (it : siter) (done : list (N * N)) (x d : N) (rest : list (N * N)) 
+           (a : alloc_st) (F : list block),
+         SListHeap.srep s (done ++ (x, d) :: rest) ->
+         SListProofs1.slown a s (done ++ (x, d) :: rest) F ->
+         sit_pos it (done ++ [(x, d)]) rest ->
+         si_current it = x ->
+         lenN (done ++ [(x, d)]) < W ->
+         exists (s' : slist) (it' : siter) (a' : alloc_st),
+           siter_remove s it a = Ok (CC_OK, d, s', it', a') /\
+           SListHeap.srep s' (done ++ rest) /\
+           SListProofs1.slown a' s' (done ++ rest) F /\
+           sit_pos it' done rest /\ si_current it' = 0 /\ SListProofs1.ssame_hdr s s' /\ ListHeap.aframe a a'.
+Proof. exact CC.SList.SListProofs6.siter_remove_spec. Qed.
+Print Assumptions C07_slist_remove.
+
+Theorem C07_slist_add :
+  forall (s : slist) (it : siter) (D : list (N * N)) (x d : N) (Added rest : list (N * N))
+           (a : alloc_st) (F : list block) (v : N),
+         SListHeap.srep s (D ++ (x, d) :: Added ++ rest) ->
+         SListProofs1.slown a s (D ++ (x, d) :: Added ++ rest) F ->
+         sit_pos it (D ++ (x, d) :: Added) rest ->
+         si_current it = x ->
+         let (o, a1) := alloc (sl_mem s) SNODE_BYTES a in
+         match o with
+         | Some id =>
+             exists (s' : slist) (it' : siter),
+               siter_add s it v a = Ok (CC_OK, s', it', a1) /\
+               SListHeap.srep s' (D ++ (x, d) :: (id, v) :: Added ++ rest) /\
+               SListProofs1.slown a1 s' (D ++ (x, d) :: (id, v) :: Added ++ rest) F /\
+               sit_pos it' (D ++ (x, d) :: (id, v) :: Added) rest /\
+               si_current it' = x /\
+               si_prev it' = si_prev it /\ SListProofs1.ssame_hdr s s' /\ ListHeap.aframe a a1
+         | None =>
+             siter_add s it v a = Ok (CC_ERR_ALLOC, s, it, a1) /\
+             SListProofs1.slown a1 s (D ++ (x, d) :: Added ++ rest) F /\
+             live a1 = live a /\ ListHeap.aframe a a1 /\ (plan a <> [] \/ limit a < SNODE_BYTES)
+         end.
+Proof. exact CC.SList.SListProofs6.siter_add_spec. Qed.
+Print Assumptions C07_slist_add.
+
+Theorem C07_slist_zip_fresh_complete :
+  forall (s1 : slist) (l1 : list (N * N)) (s2 : slist) (l2 : list (N * N)),
+         SListHeap.srep s1 l1 ->
+         SListHeap.srep s2 l2 ->
+         szip_drain (S (Nat.min (length l1) (length l2))) s1 s2 (szip_init s1 s2) =
+         Ok (combine (map snd l1) (map snd l2), CC_ITER_END).
+Proof. exact CC.SList.SListProofs6.szip_fresh_complete. Qed.
+Print Assumptions C07_slist_zip_fresh_complete.
 
